@@ -72,7 +72,7 @@ from lsst.daf.butler.datastore.cache_manager import (
     DatastoreDisabledCacheManager,
 )
 from lsst.daf.butler.datastore.composites import CompositesMap
-from lsst.daf.butler.datastore.file_templates import FileTemplates, FileTemplateValidationError
+from lsst.daf.butler.datastore.file_templates import FileTemplate, FileTemplates, FileTemplateValidationError
 from lsst.daf.butler.datastore.generic_base import GenericBaseDatastore
 from lsst.daf.butler.datastore.record_data import DatastoreRecordData
 from lsst.daf.butler.datastore.stored_file_info import StoredDatastoreItemInfo, StoredFileInfo
@@ -861,7 +861,7 @@ class FileDatastore(GenericBaseDatastore[StoredFileInfo]):
         # dataIds returning the same and causing overwrite confusion.
         template.validateTemplate(ref)
 
-        location = self.locationFactory.fromPath(template.format(ref), trusted_path=False)
+        location = self._location_from_template(template, ref)
 
         # Get the formatter based on the storage class
         storageClass = ref.datasetType.storageClass
@@ -1196,6 +1196,45 @@ class FileDatastore(GenericBaseDatastore[StoredFileInfo]):
             filtered.append(dataset)
         return _IngestPrepData(filtered)
 
+    def _location_from_template(self, template: FileTemplate, ref: DatasetRef) -> Location:
+        """Return the location the file template gives for a new artifact.
+
+        Parameters
+        ----------
+        template : `FileTemplate`
+            Template to use.
+        ref : `DatasetRef`
+            Dataset the artifact is for.
+
+        Returns
+        -------
+        location : `Location`
+            Location inside the datastore root.
+
+        Raises
+        ------
+        ValueError
+            Raised if the location is outside the datastore root, or if the
+            path recorded for it would not lead back to it.
+
+        Notes
+        -----
+        Template output comes from user-chosen names and is URI-decoded when
+        it is turned into a location; the path stored in the datastore
+        record is decoded once more every time the record is used. A name
+        that encodes ``..`` several times would pass the first check and
+        resolve somewhere else later, so the recorded path is required to
+        name the same location.
+        """
+        location = self.locationFactory.fromPath(template.format(ref), trusted_path=False)
+        recorded = self.locationFactory.fromPath(location.pathInStore.path, trusted_path=False)
+        if recorded.uri != location.uri:
+            raise ValueError(
+                f"Template '{template}' applied to {ref} results in path '{location.pathInStore.path}' "
+                "that names a different location when read back from a datastore record."
+            )
+        return location
+
     def _refuse_datasets_already_stored(self, refs: Iterable[DatasetRef]) -> None:
         """Raise if this datastore already holds any of the given datasets.
 
@@ -1308,7 +1347,7 @@ class FileDatastore(GenericBaseDatastore[StoredFileInfo]):
         # Ingesting a file from outside the datastore.
         # This involves a new name.
         template = self.templates.getTemplate(ref)
-        location = self.locationFactory.fromPath(template.format(ref), trusted_path=False)
+        location = self._location_from_template(template, ref)
 
         # Get the extension
         ext = srcUri.getExtension()
